@@ -308,6 +308,26 @@ def generate(repo):
     except StopIteration:
         facts['be_pop_before_flag'] = False
 
+    # the Flush event flushes every active sink unconditionally (interval literal 0 => should_flush_sinks = true),
+    # before the caller's flag is captured
+    for m in ('_process_transit_event', '_flush_and_run_active_sinks'):
+        sk['be' + m] = method_skeleton(docs, p, m) or []
+    pt = [l.strip() for l in sk['be_process_transit_event']]
+    fs = [l.strip() for l in sk['be_flush_and_run_active_sinks']]
+    try:
+        i_if = next(i for i, l in enumerate(pt) if l.startswith('IF') and l.endswith('== MacroMetadata::Event::Flush'))
+        i_cap = next(i for i, l in enumerate(pt) if l.startswith('EXPR flush_flag = '))
+        call = re.sub(r'\s+', '', pt[i_if + 1])
+        i_iv = next(i for i, l in enumerate(fs) if l == 'IF sink_min_flush_interval.count()')
+        i_else = next(i for i, l in enumerate(fs) if l == 'ELSE' and i > i_iv)
+        i_loop = next(i for i, l in enumerate(fs) if l.startswith('FOR') and '_active_sinks_cache' in l)
+        facts['be_flush_event_unconditional'] = (
+            call == 'EXPR_flush_and_run_active_sinks(false,std::chrono::milliseconds{0})' and i_if + 1 < i_cap
+            and fs[i_else + 1] == 'EXPR should_flush_sinks = true' and i_else < i_loop
+            and fs[i_loop + 1] == 'TRY' and fs[i_loop + 2] == 'IF should_flush_sinks' and fs[i_loop + 3] == 'EXPR sink->flush_sink()')
+    except (StopIteration, IndexError):
+        facts['be_flush_event_unconditional'] = False
+
     cl = [l.strip() for l in sk['be_cleanup_invalidated_thread_contexts']]
     try:
         i_rep = next(i for i, l in enumerate(cl) if '_check_failure_counter(' in l)
